@@ -46,8 +46,18 @@ func runC09(c *Ctx) {
 			h := enc.Parent()
 			only := len(returns(h)) > 0
 			for _, r := range returns(h) {
-				if len(r.Results) != 2 || r.Results[0] != resultOf(enc, 0) || r.Results[1] != resultOf(enc, 1) {
+				if len(r.Results) != 2 {
 					only = false
+					continue
+				}
+				if r.Results[0] == resultOf(enc, 0) && r.Results[1] == resultOf(enc, 1) {
+					continue // Encode's results handed back as they are
+				}
+				// or: (buffer, nil) after Encode succeeded, and a non-nil error otherwise
+				if cls := c.Err().Classify(errOperand(r), r.Block()); cls.MayBeNil() {
+					if forwardLoad(r.Results[0]) != resultOf(enc, 0) || !anyDominates(nilEdges(resultOf(enc, 1), true), r.Block()) {
+						only = false
+					}
 				}
 			}
 			if only {
